@@ -1826,7 +1826,10 @@ func (c *Conn) protectedReplayMarker(epoch uint16, sequenceNumber uint64) (func(
 			c.updateRemoteSequenceNumber(epoch, sequenceNumber)
 		}
 
-		return latest
+		// Newest means newer in epoch and sequence number (RFC 9146 section 6):
+		// the highest number of an epoch the peer has left behind is a stale
+		// record, whatever its number.
+		return latest && epoch >= dtlsstate.CommonState(c.state).RemoteEpoch()
 	}, true
 }
 
